@@ -324,6 +324,17 @@ loop:
 			if !stop.keepWorking {
 				return
 			}
+			// This is a cancel. Drop any work-in-progress (reclaiming its
+			// buffer, if any) and go back to waiting for new work.
+			if outWork.buffer != nil {
+				for i := range buffers {
+					if buffers[i] == nil {
+						buffers[i] = outWork.buffer
+						break
+					}
+				}
+			}
+			input, output, outWork, dRange = reqc, nil, rWork{}, Range{}
 			continue loop
 
 		case inWork := <-input:
@@ -429,6 +440,9 @@ loop:
 			if !stop.keepWorking {
 				return
 			}
+			// This is a cancel. Drop any work-in-progress and go back to
+			// waiting for a new region of interest.
+			input, output, work = roic, nil, rWork{}
 			continue loop
 
 		case roi = <-input:
